@@ -9,7 +9,7 @@ FIXES = subprocess.run(['git', '-C', '/repo', 'log', '--format=%h %s', 'bbece76.
 CHECKS = {
  'C01': dict(
    technique='abstract interpretation of the session layer (own forking interpreter over the AST, interval refinement, no solver): complete (event,state) reaction table extracted from source and compared cell by cell with an RFC 4271 8.2.2 profile; wire-dispatch and establishment-typestate rules on the same table',
-   text='Static rule discharge: for every FSM state and every entry point (operator command, each timer callback, Twisted connection callbacks, every input class of parse_buffer) all paths of the handler code are extracted and each resulting cell (messages with code/subcode, close, next state) is compared with the RFC profile. Decides the per-event reaction for all (state,event) pairs, hence for every history in the single-connection regime, because handlers read only the state and a closed set of atoms. Does not decide timing or reactor interleavings. Added: an error close to Idle carries a restart token exactly when automatic restart is allowed. The ConnectRetryTimer is off whenever OpenSent is entered; constant-table lookups (.get on module dictionaries) and attribute access on None are modelled, so an exception swallowed by the catch-all of parse_buffer shows as a message that is dispatched to nobody.',
+   text='Static rule discharge: for every FSM state and every entry point (operator command, each timer callback, Twisted connection callbacks, every input class of parse_buffer) all paths of the handler code are extracted and each resulting cell (messages with code/subcode, close, next state) is compared with the RFC profile. Decides the per-event reaction for all (state,event) pairs, hence for every history in the single-connection regime, because handlers read only the state and a closed set of atoms. Does not decide timing or reactor interleavings. Added: an error close to Idle carries a restart token exactly when automatic restart is allowed. The ConnectRetryTimer is off whenever OpenSent is entered; constant-table lookups (.get on module dictionaries) and attribute access on None are modelled, so an exception swallowed by the catch-all of parse_buffer shows as a message that is dispatched to nobody. An error close from a session state stops the hold and keepalive timers.',
    design='DESIGN.md section 3 C01, Appendix A/B',
    note='Trusted: CPython ast; the Twisted model of sa/session.py (buildProtocol, callFromThread, loseConnection ends in connectionLost); BGPTimer primitives (shape checked by C03 R03.g); the transcribed RFC profile in sa/profile.py. Decoder loops abstracted to 0/1 iteration.'),
  'C02': dict(
@@ -24,12 +24,12 @@ CHECKS = {
    note='Same trusted base as C01; reactor.callLater / DelayedCall semantics as documented by Twisted.'),
  'C12': dict(
    technique='connection-resource typestate on the extracted reaction table (incl. a second-connection regime), AST rule for connector retention, who-may-call rule for transport.write',
-   text='Static rule discharge of the mechanism the property relies on: the connector is retained, a reconnect from a non-Idle state aborts the pending attempt and closes the tracked connection first, a new protocol instance replaces the tracked one only after the old one was closed, and every write goes to the tracked transport. Today the first three fail (9 known findings); the check guards the rest and reports any new instance. Every path that starts a connect leaves the state machine in Connect/Active (R12.g).',
+   text='Static rule discharge of the mechanism the property relies on: the connector is retained, a reconnect from a non-Idle state aborts the pending attempt and closes the tracked connection first, a new protocol instance replaces the tracked one only after the old one was closed, and every write goes to the tracked transport. Today the first three fail (9 known findings); the check guards the rest and reports any new instance. Every path that starts a connect leaves the state machine in Connect/Active (R12.g). No TCP-established path ends in Idle with the new connection left open.',
    design='DESIGN.md section 3 C12',
    note='Same trusted base as C01. Schedule clauses are not decided.'),
  'C13': dict(
    technique='operator-gate rules on the extracted reaction table: stop row per state with per-timer final state, Idle-exit gate (dominance by the allow_automatic_start atom on every path), manual-start row, REST call-site scan',
-   text='Static rule discharge: manual stop in every state sends Cease iff Established, leaves every BGPTimer off, closes, forbids automatic start and ends in Idle; from Idle no path leaves, connects or emits a message except manual start or under the operator flag (with R02.d this gives, by induction, silence after stop for every continuation); manual start connects at once from Idle and is a no-op elsewhere. One known finding (late connect after stop). The REST stop helper reaches factory.manual_stop() unconditionally.',
+   text='Static rule discharge: manual stop in every state sends Cease iff Established, leaves every BGPTimer off, closes, forbids automatic start and ends in Idle; from Idle no path leaves, connects or emits a message except manual start or under the operator flag (with R02.d this gives, by induction, silence after stop for every continuation); manual start connects at once from Idle and is a no-op elsewhere. One known finding (late connect after stop). The REST stop helper reaches factory.manual_stop() unconditionally. The deferred start (idle_hold=True) arms the idle-hold timer and re-enables automatic start.',
    design='DESIGN.md section 3 C13',
    note='Same trusted base as C01; REST thread-safety not decided.'),
  'C04': dict(
@@ -39,47 +39,47 @@ CHECKS = {
    note='Same trusted base as C01; len()/slice semantics of bytes as modelled in sa/prims.py.'),
  'C05': dict(
    technique='provenance analysis of the OPEN fields (abstract interpretation of send_open + class-sensitive who-may-write scan), path-complete abstract interpretation of Open.construct with interval partition of the AS number, AST dominance/ordering rules for acceptance and 4-octet mode',
-   text='Static rule discharge: every field of the OPEN comes from a constant, from configuration or from a location only constructors/configuration code/a set-once initialiser write; AS_TRANS and capability 65 are emitted exactly per the 65535 boundary; the AS comparison uses the post-capability value, hold = min(configured, proposed); fourbytesas starts False per connection. Two known findings (capability_negotiate mutates the configured capability set; 4-octet mode ignores the local advertisement).',
+   text='Static rule discharge: every field of the OPEN comes from a constant, from configuration or from a location only constructors/configuration code/a set-once initialiser write; AS_TRANS and capability 65 are emitted exactly per the 65535 boundary; the AS comparison uses the post-capability value, hold = min(configured, proposed); fourbytesas starts False per connection. Two known findings (capability_negotiate mutates the configured capability set; 4-octet mode ignores the local advertisement). The peer\'s capability set of the accepted OPEN is stored unconditionally.',
    design='DESIGN.md section 3 C05',
    note='Same trusted base as C01. Acceptance dominance itself is discharged by C01 R01.c (open-accept).'),
  'C10': dict(
    technique='exception-funnel rule (AST: calls inside catch-all try) + escape analysis on the extracted table with struct.unpack/opaque decoders modelled as possibly raising; per-path report counting; effect set of the malformed-UPDATE path; shared-state write scan over yabgp/message/**',
-   text='Static rule discharge: no exception escapes a Twisted callback on any extracted path, each well-framed message yields at most one report on every path, the malformed-UPDATE path in Established only reports (with the raw bytes), counts and restarts the hold timer, and no decoder writes module/class/configuration state (so earlier input cannot change how later messages decode). Termination is C11/C04. Added: a well-framed message whose decoder raises is consumed exactly once (it cannot wedge the messages behind it).',
+   text='Static rule discharge: no exception escapes a Twisted callback on any extracted path, each well-framed message yields at most one report on every path, the malformed-UPDATE path in Established only reports (with the raw bytes), counts and restarts the hold timer, and no decoder writes module/class/configuration state (so earlier input cannot change how later messages decode). Termination is C11/C04. Added: a well-framed message whose decoder raises is consumed exactly once (it cannot wedge the messages behind it). No header is left undecided and every framing violation is answered in every state.',
    design='DESIGN.md section 3 C10',
    note='Same trusted base as C01. Library calls other than struct.unpack and the opaque Update codec are assumed not to raise.'),
  'C18': dict(
    technique='path counting on the abstract interpretation of every BGP.send_* method and of every table cell: delta of the concrete counter dictionaries vs number of transport writes / dispatched frames, per type; who-may-write scan',
-   text='Static rule discharge: on every path of every send method and of every (event,state) cell the sent counters move by exactly the messages written per type; on every dispatch path the received counter of the frame type moves by 1 iff the frame has the minimum length of its type; only BGP methods write the dictionaries and the REST view returns the tracked protocol. By induction over events the counters equal the wire counts for every history. One known finding (short OPEN frames are counted).',
+   text='Static rule discharge: on every path of every send method and of every (event,state) cell the sent counters move by exactly the messages written per type; on every dispatch path the received counter of the frame type moves by 1 iff the frame has the minimum length of its type; only BGP methods write the dictionaries and the REST view returns the tracked protocol. By induction over events the counters equal the wire counts for every history. One known finding (short OPEN frames are counted). Request-driven sends count after the write; the statistic route is not gated by the session state.',
    design='DESIGN.md section 3 C18',
    note='Same trusted base as C01; effects inside the internal-queue drain loop are seen for one iteration.'),
  'C08': dict(
    technique='ByteLen analysis: every construct function abstractly interpreted to symbolic concatenations; linear-form equality between each len()-derived field and the bytes it covers; symbolic TLV-stream walker for literal lengths (tunnel encapsulation, capabilities), MP_REACH layout, attribute-header/flag table rule, finite partition of prefix widths',
-   text='Static rule discharge on all 65 construct functions: message headers (marker, total length, type), attribute headers (RFC category flags, type code, extended-length bit iff 2-octet length, length = value size), every len()-computed field equals the run of bytes that follows it on every path (0/1 loop iteration, linear arithmetic), literal TLV lengths equal literal bodies, prefixes occupy ceil(len/8) octets for every length, and no construct path returns None silently. Value-range overflow and the 4096 limit are not decided. Added: every returning path of every message-level constructor yields exactly marker + length(total) + type + body; fixed-width fields (PMSI label = 3 octets) on every path. The 1-octet attribute length form is reached for at most 255 octets; an accumulator that is grown and emitted inside a loop is reset inside that loop.',
+   text='Static rule discharge on all 65 construct functions: message headers (marker, total length, type), attribute headers (RFC category flags, type code, extended-length bit iff 2-octet length, length = value size), every len()-computed field equals the run of bytes that follows it on every path (0/1 loop iteration, linear arithmetic), literal TLV lengths equal literal bodies, prefixes occupy ceil(len/8) octets for every length, and no construct path returns None silently. Value-range overflow and the 4096 limit are not decided. Added: every returning path of every message-level constructor yields exactly marker + length(total) + type + body; fixed-width fields (PMSI label = 3 octets) on every path. The 1-octet attribute length form is reached for at most 255 octets; an accumulator that is grown and emitted inside a loop is reset inside that loop. No handler inside a loop of a construct function skips an element silently.',
    design='DESIGN.md section 3 C08',
    note='Trusted: struct.calcsize, netaddr .packed being 4 or 16 octets, transcribed RFC flag categories / TLV grammars in sa/rules/c08.py.'),
  'C09': dict(
    technique='finite partition of value lengths 0..40 through the abstract interpreter for every fixed-length attribute decoder (acceptance sets vs RFC sets), constant folding of the trailing-bit mask for r=1..7, AST extraction of the dispatch table vs oracle, structural rule for generic extended-length handling',
-   text='Static rule discharge of the decidable part: extended length is selected from the flags before and independent of the type dispatch, the trailing-bit mask is the top-r-bits mask, the type dispatch table equals the oracle (AS4 attributes always 4-octet), each fixed-length decoder accepts exactly the RFC length set, ORIGIN accepts {0,1,2}, prefix length > 32 and bad segment types are rejected. Value-level agreement with a reference encoder is not decided. Added: with add-path on, every decoded prefix carries the identifier read for it for every identifier value (0 included); with add-path off none does.',
+   text='Static rule discharge of the decidable part: extended length is selected from the flags before and independent of the type dispatch, the trailing-bit mask is the top-r-bits mask, the type dispatch table equals the oracle (AS4 attributes always 4-octet), each fixed-length decoder accepts exactly the RFC length set, ORIGIN accepts {0,1,2}, prefix length > 32 and bad segment types are rejected. Value-level agreement with a reference encoder is not decided. Added: with add-path on, every decoded prefix carries the identifier read for it for every identifier value (0 included); with add-path off none does. Both IPv4 prefix-list decoders reject every length octet 33..255 (finite partition).',
    design='DESIGN.md section 3 C09',
    note='Trusted: oracle tables in sa/rules/c09.py; the interpreter model of struct/slices in sa/prims.py.'),
  'C11': dict(
    technique='loop-progress proof by abstract interpretation: every decoder while-loop is run for one iteration on symbolic input and on each back-edge path a cursor of the loop test must be a strict suffix of its previous value (slice offset with interval lower bound >= 1); call-cycle and exception-funnel AST rules',
-   text='Static rule discharge: each of the 42 decoder while-loops makes progress on every path back to its head (so it terminates on every finite input), recursion through TLV registries passes strict sub-slices, for-loops do not grow their collection, and Update.parse funnels every decoder exception into a sub-error result. A quantitative work bound is not decided. Added: recursive decoders called in a loop receive bounded windows (no 2^k re-decoding of siblings); every call in a handler of Update.parse is total.',
+   text='Static rule discharge: each of the 42 decoder while-loops makes progress on every path back to its head (so it terminates on every finite input), recursion through TLV registries passes strict sub-slices, for-loops do not grow their collection, and Update.parse funnels every decoder exception into a sub-error result. A quantitative work bound is not decided. Added: recursive decoders called in a loop receive bounded windows (no 2^k re-decoding of siblings); every call in a handler of Update.parse is total. A loop that grows its test variable must bound the growth from above.',
    design='DESIGN.md section 3 C11',
    note='Trusted: interval transfer functions of sa/prims.py; helper return values are taken from one loop iteration (their lower bounds only grow with more iterations).'),
  'C06': dict(
    technique='abstract interpretation of Update.construct (every built part present in the result on every path), finite partition of IPv4 prefix widths on encoder and decoder, signed-format scan, per-attribute value layout vs RFC layout table, dispatch-table symmetry',
-   text='Static rule discharge of necessary conditions of the round trip: no part of the request is dropped or replaced by None, encoder and decoder use ceil(m/8) octets for every m in 0..32, no signed wire format, each standard attribute encoder writes the field widths its decoder reads (RFC layout table), every encoded type code has the same codec class on the decode side. Round-trip equality over the value space is NOT decided (not a static property); breaking any of these clauses breaks the round trip. Added: no standard attribute codec sorts/reverses/de-duplicates a collection of input elements; every well-known community name the decoder renders is accepted back. AS_PATH switches to the extended length form exactly at 256 octets (interval of the packed length per path); no comparison in these codecs splits a range between 2^k-2 and 2^k-1.',
+   text='Static rule discharge of necessary conditions of the round trip: no part of the request is dropped or replaced by None, encoder and decoder use ceil(m/8) octets for every m in 0..32, no signed wire format, each standard attribute encoder writes the field widths its decoder reads (RFC layout table), every encoded type code has the same codec class on the decode side. Round-trip equality over the value space is NOT decided (not a static property); breaking any of these clauses breaks the round trip. Added: no standard attribute codec sorts/reverses/de-duplicates a collection of input elements; every well-known community name the decoder renders is accepted back. AS_PATH switches to the extended length form exactly at 256 octets (interval of the packed length per path); no comparison in these codecs splits a range between 2^k-2 and 2^k-1. Decoders subscript constant tables with received keys only under a membership / equality test of that key.',
    design='DESIGN.md section 3 C06',
    note='Trusted: RFC layout table in sa/rules/c06.py; interpreter model of struct/slices.'),
  'C07': dict(
    technique='AFI/SAFI dispatch tables extracted from both directions and compared, finite partition of NLRI prefix widths, abstract interpretation of ESI/RD/label encoders for exact record sizes and the bottom-of-stack bit, type-tag set comparison',
-   text='Static rule discharge of necessary conditions: every family the MP_REACH/MP_UNREACH encoders emit is decoded by the same codec class, NLRI prefix helpers emit ceil(m/8) octets from full-width addresses, ESI is 10 octets for every type, RD 8, labels 3 with the S bit on the last one, RD/ESI type tags handled on both sides. Value equality is not decided. Added: the decoder hands every ESI value octet the encoder writes to a conversion (read-coverage log of the interpreter), the flowspec operator octet is folded for all 256 values against the RFC 5575 bit fields and every length the encoder accepts maps to the code the decoder maps back, no NLRI codec reorders or de-duplicates input collections. Five known findings. Every returning path of an EVPN route-type decoder yields every key its encoder requires; the IPv6 link-local next hop is reported exactly for a 32-octet next hop on every path; no comparison splits a range between 2^k-2 and 2^k-1.',
+   text='Static rule discharge of necessary conditions: every family the MP_REACH/MP_UNREACH encoders emit is decoded by the same codec class, NLRI prefix helpers emit ceil(m/8) octets from full-width addresses, ESI is 10 octets for every type, RD 8, labels 3 with the S bit on the last one, RD/ESI type tags handled on both sides. Value equality is not decided. Added: the decoder hands every ESI value octet the encoder writes to a conversion (read-coverage log of the interpreter), the flowspec operator octet is folded for all 256 values against the RFC 5575 bit fields and every length the encoder accepts maps to the code the decoder maps back, no NLRI codec reorders or de-duplicates input collections. Five known findings. Every returning path of an EVPN route-type decoder yields every key its encoder requires; the IPv6 link-local next hop is reported exactly for a 32-octet next hop on every path; no comparison splits a range between 2^k-2 and 2^k-1. With two labels the S bit is on the last entry only on every path; the flowspec operand is never produced by a stripping operation.',
    design='DESIGN.md section 3 C07',
    note='Assumes MAC addresses have six groups; padded-hex idiom recognised structurally.'),
  'C14': dict(
    technique='abstract interpretation of Open.parse (result dictionary on every normal path), struct-format agreement between parse and construct of each message, finite partition of KEEPALIVE body lengths, capability code tables vs IANA and encoder/decoder branch sets',
-   text='Static rule discharge: Open.parse returns the dictionary with and without optional parameters, the fixed parts use the same formats and offsets both ways, KEEPALIVE is 19 octets and only an empty body is accepted, capability constants equal the IANA codes and every emitted capability has an encoder and a decoder branch, unknown codes are kept. Value equality is not decided. Added: the capability dispatch is total over codes 0..255 (finite partition); NOTIFICATION construct packs the code/subcode/data given on every path. No comparison in these codecs splits a range between 2^k-2 and 2^k-1 (AS 65535 is a 2-octet AS).',
+   text='Static rule discharge: Open.parse returns the dictionary with and without optional parameters, the fixed parts use the same formats and offsets both ways, KEEPALIVE is 19 octets and only an empty body is accepted, capability constants equal the IANA codes and every emitted capability has an encoder and a decoder branch, unknown codes are kept. Value equality is not decided. Added: the capability dispatch is total over codes 0..255 (finite partition); NOTIFICATION construct packs the code/subcode/data given on every path. No comparison in these codecs splits a range between 2^k-2 and 2^k-1 (AS 65535 is a 2-octet AS). Open.parse leaves the hold-time field unconstrained (the codec accepts 0..65535).',
    design='DESIGN.md section 3 C14',
    note='Trusted: IANA table in sa/rules/c14.py.'),
  'C15': dict(
@@ -89,7 +89,7 @@ CHECKS = {
    note='Syntactic def-use on loop bodies; comprehension variables excluded.'),
  'C16': dict(
    technique='decorator-stack rule over every Flask route (AST), shape rules for the password callback and the establishment gate, reachability of BGP sends through yabgp.api.utils, forwarded-argument dataflow of the update view',
-   text='Static rule discharge: every /peer/ route has auth.login_required directly inside blueprint.route, the password callback returns the configured password only for the configured user, every view that can reach a BGP send is gated by makesure_peer_establish (which calls the view only for Established), the update view forwards NLRI/withdraw unchanged and touches attributes only as documented, and success is reported only from the send result on the tracked protocol. Flask / Flask-HTTPAuth semantics are trusted. Added: no /peer/ route hands OPTIONS to the view (Flask-HTTPAuth does not authenticate OPTIONS). api.utils.send_update hands attr/nlri/withdraw to protocol.send_update unchanged on every path; gate and readiness predicate are judged by structural path conditions, so guard clauses and named locals do not matter.',
+   text='Static rule discharge: every /peer/ route has auth.login_required directly inside blueprint.route, the password callback returns the configured password only for the configured user, every view that can reach a BGP send is gated by makesure_peer_establish (which calls the view only for Established), the update view forwards NLRI/withdraw unchanged and touches attributes only as documented, and success is reported only from the send result on the tracked protocol. Flask / Flask-HTTPAuth semantics are trusted. Added: no /peer/ route hands OPTIONS to the view (Flask-HTTPAuth does not authenticate OPTIONS). api.utils.send_update hands attr/nlri/withdraw to protocol.send_update unchanged on every path; gate and readiness predicate are judged by structural path conditions, so guard clauses and named locals do not matter. json_to_bin applies the same LOCAL_PREF guard; BGP.send_route_refresh writes the requested afi/res/safi on every path.',
    design='DESIGN.md section 3 C16',
    note='Trusted: Flask decorator order semantics, HTTPBasicAuth.get_password / login_required.'),
  'C17': dict(
@@ -99,12 +99,12 @@ CHECKS = {
    note='Trusted: constant folding of yabgp/common/constants.py by sa/front.py.'),
  'C19': dict(
    technique='per-item case analysis by abstract interpretation of each RIB / version updater on a one-element update with an open table (path per present/absent/equal case, concrete counter deltas and recorded mutations), table rows for the flush, guard/dominance and who-may-write AST rules',
-   text='Static rule discharge: for the two IPv4 RIB updaters and the flowspec/VPN version updaters (both directions) every case of the per-item table moves the counter and the table exactly as the model requires, withdrawals precede announcements, both RIBs are reset on every connectionMade/connectionLost path, and the RIB is reached only by well-formed IPv4 UPDATEs under the option. By induction over items and updates this gives the history property for the dictionary model. Added: rule tables are stored/removed exactly with the version move; the family tests compare afi_safi with the representation their producer yields (4 known findings: the receive side compares the decoder\'s tuple with list literals, so received flowspec/VPNv4 versions never move).',
+   text='Static rule discharge: for the two IPv4 RIB updaters and the flowspec/VPN version updaters (both directions) every case of the per-item table moves the counter and the table exactly as the model requires, withdrawals precede announcements, both RIBs are reset on every connectionMade/connectionLost path, and the RIB is reached only by well-formed IPv4 UPDATEs under the option. By induction over items and updates this gives the history property for the dictionary model. Added: rule tables are stored/removed exactly with the version move; the family tests compare afi_safi with the representation their producer yields (4 known findings: the receive side compares the decoder\'s tuple with list literals, so received flowspec/VPNv4 versions never move). Every write to the attributes in the REST view precedes the Adj-RIB-Out / version bookkeeping.',
    design='DESIGN.md section 3 C19',
    note='Same trusted base as C01; the radix tree mirror is outside the statement.'),
  'C20': dict(
    technique='AST must-call / pairing rules on DefaultHandler (one write_msg per callback, write-flush-fsync-increment pairing and order), bytes-payload source scan over the decoders, recovery-path exit and rotation rules',
-   text='Static rule discharge of the structural conditions; crash points cannot be enumerated statically. What holds: one line per event with keys t/seq/type/msg, flush+fsync and exactly one sequence increment per line, no other writer, resume at recovered+1 in append mode. What fails today (6 known findings): the record is streamed with json.dump (not atomic), decoders can put bytes into the payload, recovery exits on a torn tail, recovery ignores all but the newest file. Added: no return/raise before the single write_msg of a callback; recovery does not look for the last line in a window of fixed size. write_msg calls nothing that replaces the per-peer file entry while it holds the fetched handle.',
+   text='Static rule discharge of the structural conditions; crash points cannot be enumerated statically. What holds: one line per event with keys t/seq/type/msg, flush+fsync and exactly one sequence increment per line, no other writer, resume at recovered+1 in append mode. What fails today (6 known findings): the record is streamed with json.dump (not atomic), decoders can put bytes into the payload, recovery exits on a torn tail, recovery ignores all but the newest file. Added: no return/raise before the single write_msg of a callback; recovery does not look for the last line in a window of fixed size. write_msg calls nothing that replaces the per-peer file entry while it holds the fetched handle. The storing side of the per-peer tables uses the lower-cased key; list-format lines are read as Python literals.',
    design='DESIGN.md section 3 C20',
    note='A crash-point enumeration is outside this technique; the atomic-line and recovery rules are necessary conditions of the crash clauses.'),
 }
